@@ -1,6 +1,7 @@
 import Proofs.GAELeak
 import Proofs.GAEFlat
 import Proofs.GAEMatrix
+import Proofs.GAEGenEq
 
 /-!
 # C17 — advantage estimation follows its definition and respects episode boundaries; every
@@ -183,6 +184,84 @@ theorem C17_ippo_unrepaired_next_done_witness :
     ippoNextDoneCols0 2 2 (fun a e => (a, e)) = [(0,0), (1,0), (0,1), (1,1)] := by
   constructor <;> decide
 
+/-! ## the source text, translated
+
+`harness/py2lean_gae.py` translates the advantage-estimation loop of `PPO.learn`
+(agilerl/algorithms/ppo.py) and of `IPPO._learn_individual` (agilerl/algorithms/ippo.py) — from the
+definitions of `advantages` / `last_gae_lambda` through `for t in reversed(range(num_steps))` to
+`returns = advantages + values`, read with Python's `ast` from the tree under test — into
+`Gen/GAEGen.lean` on every run of the check; `Proofs/GAEGenEq.lean` proves the generated loop body and
+the generated range EQUAL to `loopBody`, `gaeLoop`, `returnsOf`.  The theorems below restate the
+advantage / return theorems directly over the generated definitions (`genPPO γ λ c` =
+`GAEGen.PPO.gae λ γ c.r (flags c.d) c.v (ind c.nd) c.nv`, likewise `genIPPO`; `.1` = advantages,
+`.2` = returns), so a change of the source that alters its meaning breaks them.  The flattening into
+training rows is torch reshaping, outside the translated subset: it stays with the theorems above and
+the provenance-coded correspondence run. -/
+section source_translation
+open GAEGen
+
+/-- every generated definition equals the hand-written model function: the loop bodies for every step
+    the loop visits, the ranges for every column -/
+theorem C17_source_translation_equalities (γ lam : Rat) (c : Col) :
+    (∀ s t, t < c.T → PPO.gae_body lam γ c.r (flags c.d) c.v (ind c.nd) c.nv (s.adv, s.last) t
+        = ((loopBody γ lam c s t).adv, (loopBody γ lam c s t).last)) ∧
+    PPO.gae lam γ c.r (flags c.d) c.v (ind c.nd) c.nv = (gaeLoop γ lam c, returnsOf (gaeLoop γ lam c) c.v) ∧
+    (∀ s t, t < c.T → IPPO.gae_body lam γ c.r (flags c.d) c.v (ind c.nd) c.nv (s.adv, s.last) t
+        = ((loopBody γ lam c s t).adv, (loopBody γ lam c s t).last)) ∧
+    IPPO.gae lam γ c.r (flags c.d) c.v (ind c.nd) c.nv = (gaeLoop γ lam c, returnsOf (gaeLoop γ lam c) c.v) :=
+  ⟨fun s t ht => gen_ppo_body_eq γ lam c s t ht, gen_ppo_gae_eq γ lam c,
+    fun s t ht => gen_ippo_body_eq γ lam c s t ht, gen_ippo_gae_eq γ lam c⟩
+
+/-- **loop = definition over the generated code**: the advantages the translated loops of `PPO.learn`
+    and `IPPO._learn_individual` leave behind are `T` numbers and the `t`-th one is `A_t` of the
+    recursive definition, for every rollout length, reward/value/done sequence, γ and λ -/
+theorem C17_source_translation_gae_is_recursion (γ lam : Rat) (c : Col) :
+    ((genPPO γ lam c).1.length = c.T ∧ ∀ t, t < c.T → (genPPO γ lam c).1[t]? = some (adv γ lam c t)) ∧
+    ((genIPPO γ lam c).1.length = c.T ∧ ∀ t, t < c.T → (genIPPO γ lam c).1[t]? = some (adv γ lam c t)) := by
+  rw [gen_ppo_gae_eq, gen_ippo_gae_eq]
+  exact ⟨C17_gae_is_recursion γ lam c, C17_gae_is_recursion γ lam c⟩
+
+/-- **returns over the generated code**: the translated `returns = advantages + values` is the
+    entry-wise sum of the translated advantages and the values, and entry `t` is `A_t + V_t` -/
+theorem C17_source_translation_returns (γ lam : Rat) (c : Col) (hv : c.v.length = c.T) :
+    (genPPO γ lam c).2 = List.zipWith (· + ·) (genPPO γ lam c).1 c.v ∧
+    (genIPPO γ lam c).2 = List.zipWith (· + ·) (genIPPO γ lam c).1 c.v ∧
+    ∀ t, t < c.T → (genPPO γ lam c).2[t]? = some (ret γ lam c t) ∧
+      (genIPPO γ lam c).2[t]? = some (ret γ lam c t) := by
+  rw [gen_ppo_gae_eq, gen_ippo_gae_eq]
+  exact ⟨rfl, rfl, fun t ht => ⟨C17_returns γ lam c hv t ht, C17_returns γ lam c hv t ht⟩⟩
+
+/-- **a done flag at `t + 1` cuts the bootstrap, over the generated code**: if `dones[k] = 1` in two
+    rollouts (of any lengths) that agree on rewards, values and flags before step `k`, the translated
+    loops give them the same advantages and returns at every `t < k` — whatever follows `k`,
+    including `V_k`, `next_value` and `next_done` -/
+theorem C17_source_translation_no_leak (γ lam : Rat) (c c' : Col) (k : Nat) (hk : k < c.T) (hk' : k < c'.T)
+    (hv : c.v.length = c.T) (hv' : c'.v.length = c'.T)
+    (hd : c.d.getD k false = true) (hd' : c'.d.getD k false = true) (hag : AgreeBefore c c' k)
+    (t : Nat) (ht : t < k) :
+    (genPPO γ lam c).1[t]? = (genPPO γ lam c').1[t]? ∧ (genPPO γ lam c).2[t]? = (genPPO γ lam c').2[t]? ∧
+    (genIPPO γ lam c).1[t]? = (genIPPO γ lam c').1[t]? ∧ (genIPPO γ lam c).2[t]? = (genIPPO γ lam c').2[t]? := by
+  obtain ⟨h1, _, h3⟩ := C17_no_leak γ lam c c' k hk hk' hd hd' hag t ht
+  have h2 : (returnsOf (gaeLoop γ lam c) c.v)[t]? = (returnsOf (gaeLoop γ lam c') c'.v)[t]? := by
+    rw [C17_returns γ lam c hv t (by omega), C17_returns γ lam c' hv' t (by omega), h3]
+  simp only [gen_ppo_gae_eq, gen_ippo_gae_eq]
+  exact ⟨h1, h2, h1, h2⟩
+
+/-- **no leak through the bootstrap, over the generated code**: with `next_done = 1` the critic's
+    value of the final next observation influences no advantage and no return of the translated loops -/
+theorem C17_source_translation_no_leak_next_done (γ lam : Rat) (c c' : Col) (hT : c.T = c'.T)
+    (hv : c.v.length = c.T) (hv' : c'.v.length = c'.T)
+    (hd : c.nd = true) (hd' : c'.nd = true) (hag : AgreeBefore c c' c.T) (t : Nat) (ht : t < c.T) :
+    (genPPO γ lam c).1[t]? = (genPPO γ lam c').1[t]? ∧ (genPPO γ lam c).2[t]? = (genPPO γ lam c').2[t]? ∧
+    (genIPPO γ lam c).1[t]? = (genIPPO γ lam c').1[t]? ∧ (genIPPO γ lam c).2[t]? = (genIPPO γ lam c').2[t]? := by
+  obtain ⟨h1, _, h3⟩ := C17_no_leak_next_done γ lam c c' hT hd hd' hag t ht
+  have h2 : (returnsOf (gaeLoop γ lam c) c.v)[t]? = (returnsOf (gaeLoop γ lam c') c'.v)[t]? := by
+    rw [C17_returns γ lam c hv t ht, C17_returns γ lam c' hv' t (by omega), h3]
+  simp only [gen_ppo_gae_eq, gen_ippo_gae_eq]
+  exact ⟨h1, h2, h1, h2⟩
+
+end source_translation
+
 /-! ### non-vacuity -/
 
 /-- a concrete rollout of one environment: an episode ends after step 1 (`dones[2] = 1`) -/
@@ -207,5 +286,11 @@ example : gaeLoop (1/2) (3/4) { exCol with nd := true, nv := 100 } = gaeLoop (1/
 example : ppoFlatten 2 3 (fun t e => (t, e)) = [(0,0), (1,0), (0,1), (1,1), (0,2), (1,2)] := by decide +kernel
 example : ippoAdvFlatten 2 2 2 (fun a t e => (a, t, e)) = ippoObsFlatten 2 2 2 (fun a t e => (a, t, e)) := by decide +kernel
 example : ippoAdvFlatten0 2 2 2 (fun a t e => (a, t, e)) ≠ ippoObsFlatten 2 2 2 (fun a t e => (a, t, e)) := by decide +kernel
+
+-- the generated (source-translated) ranges on the same rollouts: values, and the hypotheses of
+-- C17_source_translation_no_leak (value columns as long as the rollout)
+example : genPPO (1/2) (3/4) exCol = ([11/8, 1, 7/2], [15/8, 2, 5]) ∧ genIPPO (1/2) (3/4) exCol = genPPO (1/2) (3/4) exCol := by decide +kernel
+example : exCol.v.length = exCol.T ∧ exCol'.v.length = exCol'.T := by decide
+example : (genIPPO (1/2) (3/4) exCol').1.take 2 = [11/8, 1] ∧ (genIPPO (1/2) (3/4) exCol').2.take 2 = [15/8, 2] := by decide +kernel
 
 end GAE
